@@ -436,8 +436,16 @@ class RecurrencePlotS(Subject):
 
     def build(self, m):
         from pyunicorn import timeseries
-        return getattr(timeseries, self.cls)(
+        o = getattr(timeseries, self.cls)(
             _c(m["x"]), metric=m["metric"], silence_level=3, **self._kw(m))
+        if m.get("E") is not None:
+            # the phase-space trajectory was replaced through the public
+            # `embedding` property (time_series itself stays what it was),
+            # then the recurrence matrix was regenerated
+            o.embedding = m["E"]
+            setter = {v: k for k, v in RP_KW.items()}[m["mode"][0]]
+            getattr(o, setter)(m["mode"][1])
+        return o
 
     def mutators(self):
         out = []
@@ -448,6 +456,19 @@ class RecurrencePlotS(Subject):
                 return {**m, "mode": (RP_KW[s], v),
                         "_past": m.get("_past", []) + [m["mode"]]}
             out.append((s, f))
+
+        def emb(o, m, r):
+            # new phase-space trajectory through the public property, then
+            # the recurrence matrix is regenerated at a fixed threshold
+            n = int(r.integers(10, 24))
+            E = np.float32(np.round(r.normal(size=(n, 2)) * 8) / 8)
+            v = RP_SETTERS["set_fixed_threshold"](r, m)
+            o.embedding = E
+            o.set_fixed_threshold(v)
+            return {**m, "E": E, "mode": ("threshold", v),
+                    "_past": m.get("_past", []) + [m["mode"]]}
+        if self.cls in ("RecurrencePlot", "RecurrenceNetwork"):
+            out.append(("embedding=+set_fixed_threshold", emb))
         return out
 
 
@@ -544,8 +565,21 @@ class CrossRecurrencePlotS(Subject):
             v = float(r.choice([0.15, 0.3, 0.6]))
             o.set_fixed_recurrence_rate(v)
             return {**m, "mode": ("recurrence_rate", v)}
+        def emb(which):
+            def f(o, m, r):
+                n = int(r.integers(8, 20))
+                E = np.float32(np.round(r.normal(size=(n, 1)) * 8) / 8)
+                setattr(o, which + "_embedded", E)
+                v = m["mode"][1] if m["mode"][0] == "threshold" else \
+                    float(r.choice([0.5, 1.0]))
+                o.set_fixed_threshold(v)
+                return {**m, which: E[:, 0].astype(float),
+                        "mode": ("threshold", v)}
+            return f
         return [("set_fixed_threshold", thr),
-                ("set_fixed_recurrence_rate", rr)]
+                ("set_fixed_recurrence_rate", rr),
+                ("x_embedded=+set_fixed_threshold", emb("x")),
+                ("y_embedded=+set_fixed_threshold", emb("y"))]
 
 
 class ISRNS(Subject):
@@ -698,7 +732,14 @@ class SurrogatesS(Subject):
         def norm(o, m, r):
             o.normalize_original_data()
             return {**m, "normalized": True}
-        return [("normalize_original_data", norm)]
+
+        def emb(o, m, r):
+            from pyunicorn.timeseries import Surrogates
+            dim, tau = int(r.integers(1, 4)), int(r.integers(1, 3))
+            o.embedding = Surrogates.embed_time_series_array(
+                np.array(m["x"], dtype=float), dim, tau, silence_level=3)
+            return {**m, "dim": dim, "tau": tau}
+        return [("normalize_original_data", norm), ("embedding=", emb)]
 
     def extra_queries(self, obj, m):
         return [("twins(0.3,2)", lambda o: o.twins(0.3, 2)),
